@@ -29,12 +29,15 @@ VARIABLES entry,    \* the cache entry (shared)
           ctr,      \* ConnectTo rotation counter
           tmp,      \* per dialer: value of ctr read before the write (non-atomic variant)
           used,     \* replacement index -> number of uses
-          ndials
+          ndials,
+          refresher, \* the cache-refresh goroutine started for a positive ttl: "run" | "exited"
+          stopped    \* Attacker.Stop has been called (a.stopch is closed)
 
-vars == <<entry, work, dpc, dialed, ctr, tmp, used, ndials>>
+vars == <<entry, work, dpc, dialed, ctr, tmp, used, ndials, refresher, stopped>>
 
 Init == /\ entry = Resolved /\ work = [d \in Dialers |-> << >>] /\ dpc = [d \in Dialers |-> "idle"]
         /\ dialed = << >> /\ ctr = 0 /\ tmp = [d \in Dialers |-> 0] /\ used = [i \in 0..(NRepl - 1) |-> 0] /\ ndials = 0
+        /\ refresher = "run" /\ stopped = FALSE
 
 Perms(s) == {p \in [1..Len(s) -> 1..Len(s)] : \A i, j \in 1..Len(s) : i # j => p[i] # p[j]}
 
@@ -42,7 +45,7 @@ Perms(s) == {p \in [1..Len(s) -> 1..Len(s)] : \A i, j \in 1..Len(s) : i # j => p
 Load(d) == /\ dpc[d] = "idle" /\ ndials < MaxDials
            /\ work' = [work EXCEPT ![d] = entry]
            /\ dpc' = [dpc EXCEPT ![d] = "loaded"] /\ ndials' = ndials + 1
-           /\ UNCHANGED <<entry, dialed, ctr, tmp, used>>
+           /\ UNCHANGED <<entry, dialed, ctr, tmp, used, refresher, stopped>>
 
 \* rng.Shuffle: some permutation of the slice; through an alias it rewrites the cache entry
 Shuffle(d) == /\ dpc[d] = "loaded"
@@ -51,7 +54,7 @@ Shuffle(d) == /\ dpc[d] = "loaded"
                     /\ work' = [work EXCEPT ![d] = s]
                     /\ IF ShareEntry THEN entry' = s ELSE UNCHANGED entry
               /\ dpc' = [dpc EXCEPT ![d] = "shuffled"]
-              /\ UNCHANGED <<dialed, ctr, tmp, used, ndials>>
+              /\ UNCHANGED <<dialed, ctr, tmp, used, ndials, refresher, stopped>>
 
 \* firstOfEachIPFamily: each := ips[:0]; append the first address of each family - writes cells 1, 2 of the same array
 RECURSIVE FirstEach(_, _, _)
@@ -68,22 +71,37 @@ Compact(d) == /\ dpc[d] = "shuffled"
                     ELSE UNCHANGED entry
                  /\ dialed' = Append(dialed, {each[i] : i \in 1..Len(each)})
               /\ dpc' = [dpc EXCEPT ![d] = "idle"]
-              /\ UNCHANGED <<ctr, tmp, used, ndials>>
+              /\ UNCHANGED <<ctr, tmp, used, ndials, refresher, stopped>>
 
 \* ConnectTo: cm.n = (cm.n + 1) % len ; addr = cm.addrs[cm.n]
 Rotate(d) == /\ AtomicCounter /\ dpc[d] = "idle" /\ ndials < MaxDials
              /\ ctr' = ctr + 1 /\ used' = [used EXCEPT ![(ctr + 1) % NRepl] = @ + 1] /\ ndials' = ndials + 1
-             /\ UNCHANGED <<entry, work, dpc, dialed, tmp>>
+             /\ UNCHANGED <<entry, work, dpc, dialed, tmp, refresher, stopped>>
 RotRead(d) == /\ ~AtomicCounter /\ dpc[d] = "idle" /\ ndials < MaxDials
               /\ tmp' = [tmp EXCEPT ![d] = ctr] /\ dpc' = [dpc EXCEPT ![d] = "rot"] /\ ndials' = ndials + 1
-              /\ UNCHANGED <<entry, work, dialed, ctr, used>>
+              /\ UNCHANGED <<entry, work, dialed, ctr, used, refresher, stopped>>
 RotWrite(d) == /\ dpc[d] = "rot"
                /\ ctr' = tmp[d] + 1 /\ used' = [used EXCEPT ![(tmp[d] + 1) % NRepl] = @ + 1]
                /\ dpc' = [dpc EXCEPT ![d] = "idle"]
-               /\ UNCHANGED <<entry, work, dialed, tmp, ndials>>
+               /\ UNCHANGED <<entry, work, dialed, tmp, ndials, refresher, stopped>>
 
-Next == \E d \in Dialers : Load(d) \/ Shuffle(d) \/ Compact(d) \/ Rotate(d) \/ RotRead(d) \/ RotWrite(d)
+\* case <-refresh.C: resolver.Refresh(true)  - the resolver stores a freshly resolved slice (a new array) as the entry
+RefreshTick == /\ refresher = "run"
+               /\ entry' = Resolved
+               /\ UNCHANGED <<work, dpc, dialed, ctr, tmp, used, ndials, refresher, stopped>>
+\* case <-a.stopch: return
+RefreshExit == /\ refresher = "run" /\ stopped
+               /\ refresher' = "exited"
+               /\ UNCHANGED <<entry, work, dpc, dialed, ctr, tmp, used, ndials, stopped>>
+StopAttack == /\ ~stopped /\ stopped' = TRUE
+              /\ UNCHANGED <<entry, work, dpc, dialed, ctr, tmp, used, ndials, refresher>>
+
+Next == \/ \E d \in Dialers : Load(d) \/ Shuffle(d) \/ Compact(d) \/ Rotate(d) \/ RotRead(d) \/ RotWrite(d)
+        \/ RefreshTick \/ RefreshExit \/ StopAttack
 Spec == Init /\ [][Next]_vars
+FairSpec == Spec /\ WF_vars(RefreshExit) /\ WF_vars(StopAttack)
+\* "This go-routine will be stopped when the attack is stopped"
+RefresherStops == stopped ~> (refresher = "exited")
 
 (*------------------------------ contract ------------------------------*)
 AddrSet(s) == {s[i] : i \in 1..Len(s)}
